@@ -78,15 +78,21 @@ Proof.
 Qed.
 
 (* ----------------------------------------------------------------- laplace *)
-(* the constructor validates nothing (laplace_ctor_refuted): validity is a hypothesis here *)
 Lemma laplace_formula mu sigma : laplace_valid mu sigma ->
   exists d, lap_new mu sigma = Some d /\
             forall x, lap_logpdf d x = Val (Fin (ln (laplace_pdf mu sigma x))).
 Proof.
-  unfold laplace_valid. intro Hs. unfold lap_new. eexists; split; [reflexivity|]. intro x.
+  unfold laplace_valid. intro Hs. unfold lap_new. rewrite Rleb_f by lra. eexists; split; [reflexivity|]. intro x.
   unfold lap_logpdf; cbn [l_mu l_sigma l_z]. red_er. rewrite elog_pos by lra. rewrite ediv_fin by lra.
   red_er. do 2 f_equal. unfold laplace_pdf.
   replace (x + - mu) with (x - mu) by lra. ln_all. fin.
+Qed.
+Lemma laplace_ctor mu sigma : lap_new mu sigma = None <-> ~ laplace_valid mu sigma.
+Proof.
+  unfold lap_new, laplace_valid. destruct (Rleb sigma 0) eqn:E.
+  - apply Rleb_true in E. split; auto. intros _. lra.
+  - split; [discriminate|]. intro H. exfalso. apply H.
+    destruct (Rle_dec sigma 0) as [L|L]; [|lra]. apply Rleb_t in L. congruence.
 Qed.
 
 (* ------------------------------------------------------------------ pareto *)
@@ -220,13 +226,12 @@ Proof.
 Qed.
 
 (* --------------------------------------------------------------- power law *)
-(* the constructor accepts more than the valid set (powerlaw_ctor_refuted) *)
 Lemma powerlaw_formula alpha xmin : powerlaw_valid alpha xmin ->
   exists d, pl_new alpha xmin = Some d /\
     (forall x, xmin <= x -> pl_logpdf d x = Val (Fin (ln (powerlaw_pdf alpha xmin x)))) /\
     (forall x, x < xmin -> pl_logpdf d x = Val NInf).
 Proof.
-  unfold powerlaw_valid. intros [Ha Hx]. unfold pl_new. rewrite Rleb_f by lra. rewrite Reqb_f by lra.
+  unfold powerlaw_valid. intros [Ha Hx]. unfold pl_new. rewrite !Rleb_f by lra.
   eexists; split; [reflexivity|]. split; intros x H; unfold pl_logpdf; cbn [w_xmin w_alpha w_cz].
   - rewrite Rltb_f by lra. red_er. rewrite !ediv_fin by lra.
     assert (0 < x / xmin) by (apply Rdiv_lt_0_compat; lra).
@@ -236,6 +241,15 @@ Proof.
     set (u := x / xmin) in *. set (w := (alpha + - (1)) / xmin) in *.
     rewrite ln_mult, ln_Rpower by pos. fin.
   - rewrite Rltb_t by lra. reflexivity.
+Qed.
+Lemma powerlaw_ctor alpha xmin : pl_new alpha xmin = None <-> ~ powerlaw_valid alpha xmin.
+Proof.
+  unfold pl_new, powerlaw_valid.
+  destruct (Rleb alpha 1) eqn:E1; [apply Rleb_true in E1; split; auto; intros _; lra|].
+  destruct (Rleb xmin 0) eqn:E2; [apply Rleb_true in E2; split; auto; intros _; lra|].
+  split; [discriminate|]. intro H. exfalso. apply H.
+  destruct (Rle_dec alpha 1) as [L|L]; [apply Rleb_t in L; congruence|].
+  destruct (Rle_dec xmin 0) as [K|K]; [apply Rleb_t in K; congruence|]. lra.
 Qed.
 
 (* ------------------------------------------------------------------- gamma *)
@@ -278,16 +292,41 @@ Proof.
 Qed.
 
 (* ------------------------------------------------------------- chi-squared *)
-(* no constructor validation and no support guard in the code (chisq_*_refuted):
-   formula on the interior of the support for valid k *)
+(* formula on the interior, -Inf below the support, and the three cases of the boundary point x = 0
+   (k < 2: the density is unbounded, +Inf; k = 2: the density 1/2 — no 0 * log 0; k > 2: density 0, -Inf) *)
 Lemma chisq_formula k : chisq_valid k ->
   exists d, chi_new lgam k = Some d /\
-    forall x, 0 < x -> chi_logpdf d x = Val (Fin (ln (chisq_pdf lgam k x))).
+    (forall x, 0 < x -> chi_logpdf d x = Val (Fin (ln (chisq_pdf lgam k x)))) /\
+    (forall x, x < 0 -> chi_logpdf d x = Val NInf) /\
+    (2 < k -> chi_logpdf d 0 = Val NInf) /\
+    (k = 2 -> chi_logpdf d 0 = Val (Fin (ln (/ (2 * Gam lgam 1))))) /\
+    (k < 2 -> chi_logpdf d 0 = Val PInf).
 Proof.
-  unfold chisq_valid. intro Hk. unfold chi_new. eexists; split; [reflexivity|]. intros x Hx.
-  unfold chi_logpdf; cbn [h_e h_c h_z]. rewrite !elog_pos by lra. rewrite elgam_pos by lra.
-  rewrite ediv_fin by lra. red_er. do 2 f_equal.
-  unfold chisq_pdf, Gam. ln_all. fin.
+  unfold chisq_valid. intro Hk. unfold chi_new. rewrite Rleb_f by lra.
+  eexists; split; [reflexivity|]. split; [|split; [|split; [|split]]].
+  - intros x Hx. unfold chi_logpdf; cbn [h_e h_c h_z]. rewrite Rltb_f by lra.
+    rewrite !elog_pos by lra. rewrite elgam_pos by lra.
+    rewrite ediv_fin by lra. red_er. cbn [eis_zero].
+    destruct (Reqb (k / 2 + - (1)) 0) eqn:E; [apply Reqb_true in E|]; red_er; do 2 f_equal;
+      unfold chisq_pdf, Gam; ln_all; [nra | fin].
+  - intros x Hx. unfold chi_logpdf. rewrite Rltb_t by lra. reflexivity.
+  - intro H2. unfold chi_logpdf; cbn [h_e h_c h_z]. rewrite Rltb_f by lra. red_er. cbn [eis_zero].
+    rewrite Reqb_f by lra. rewrite (elog_zero 0) by reflexivity. rewrite elog_pos by lra. rewrite elgam_pos by lra.
+    rewrite ediv_fin by lra. red_er. rewrite inf_times_pos by lra. reflexivity.
+  - intro H2. unfold chi_logpdf; cbn [h_e h_c h_z]. rewrite Rltb_f by lra. red_er. cbn [eis_zero].
+    rewrite Reqb_t by lra. rewrite elog_pos by lra. rewrite elgam_pos by lra.
+    rewrite ediv_fin by lra. red_er. do 2 f_equal. subst k. replace (2 / 2) with 1 by lra.
+    unfold Gam. ln_all. fin.
+  - intro H2. unfold chi_logpdf; cbn [h_e h_c h_z]. rewrite Rltb_f by lra. red_er. cbn [eis_zero].
+    rewrite Reqb_f by lra. rewrite (elog_zero 0) by reflexivity. rewrite elog_pos by lra. rewrite elgam_pos by lra.
+    rewrite ediv_fin by lra. red_er. rewrite inf_times_neg by lra. reflexivity.
+Qed.
+Lemma chisq_ctor k : chi_new lgam k = None <-> ~ chisq_valid k.
+Proof.
+  unfold chi_new, chisq_valid. destruct (Rleb k 0) eqn:E.
+  - apply Rleb_true in E. split; auto. intros _. lra.
+  - split; [discriminate|]. intro H. exfalso. apply H.
+    destruct (Rle_dec k 0) as [L|L]; [|lra]. apply Rleb_t in L. congruence.
 Qed.
 
 (* -------------------------------------------------------------------- beta *)
@@ -303,10 +342,9 @@ Proof.
                 (a - 1) * ln x + (b - 1) * ln (1 - x) + (lgam (a + b) + - lgam a + - lgam b)).
     { unfold beta_pdf, Gam. set (y := 1 - x). assert (0 < y) by (unfold y; lra). ln_all. fin. }
     rewrite E. clear E.
-    destruct (Reqb (b - 1) 0) eqn:Eb; destruct (Reqb (a - 1) 0) eqn:Ea;
-      try apply Reqb_true in Eb; try apply Reqb_true in Ea;
-      rewrite ?elog_pos by lra; red_er; cbn [eis_nan]; do 2 f_equal;
-      rewrite ?Ea, ?Eb; replace (1 + - x) with (1 - x) by lra; lra.
+    rewrite (Reqb_f x 1), (Reqb_f x 0) by lra. rewrite !andb_false_r.
+    rewrite !elog_pos by lra. red_er. cbn [eis_nan]. do 2 f_equal.
+    replace (1 + - x) with (1 - x) by lra. lra.
   - destruct Hx as [Hx|Hx].
     + rewrite Rltb_t by lra. reflexivity.
     + rewrite (Rltb_t 1 x) by lra. rewrite orb_true_r. reflexivity.
@@ -328,10 +366,9 @@ Proof.
     rewrite E. clear E.
     unfold logsub. cbn [eis_ninf]. red_er.
     replace (x + - 0) with x by lra.
-    destruct (Reqb (b - 1) 0) eqn:Eb; destruct (Reqb (a - 1) 0) eqn:Ea;
-      try apply Reqb_true in Eb; try apply Reqb_true in Ea;
-      rewrite ?elog1p_gt by lra; red_er; cbn [eis_nan]; do 2 f_equal;
-      rewrite ?Ea, ?Eb; replace (1 + - exp x) with (1 - exp x) by lra; lra.
+    rewrite (Reqb_f x 0) by lra. rewrite !andb_false_r.
+    rewrite ?elog1p_gt by lra. red_er. cbn [eis_nan]. do 2 f_equal.
+    replace (1 + - exp x) with (1 - exp x) by lra. lra.
   - rewrite Rltb_t by lra. reflexivity.
 Qed.
 
